@@ -694,6 +694,16 @@ func (e *Engine) mapDelete(st *State, m, key Value, pos string) {
 	dt := map[string]Term{"m": IntLit(int64(cell))}
 	if kt, ok := key.(VSym); ok {
 		dt["k"] = kt.T
+		// whether the key was present before the delete (maps with an SMT image)
+		if !obj.Struct && obj.Has.S != "" {
+			dt["present"] = Select(obj.Has, kt.T, SBool)
+		} else if !obj.Struct && obj.Absent.S != "" {
+			p := Not(Eq(Select(obj.Arr, kt.T, obj.ValSort), obj.Absent))
+			if obj.NilT.S != "" && !obj.NilT.IsFalse() {
+				p = And(Not(obj.NilT), p)
+			}
+			dt["present"] = p
+		}
 	}
 	st.addTrace(TraceEv{Kind: "mapdelete", Pos: pos, Args: []Value{m, key}, Terms: dt})
 }
